@@ -479,7 +479,7 @@ class Gen(object):
         k = self.r.random()
         if k < 0.3:
             num = self.intlit if self.r.random() < 0.6 else self.floatlit
-            form = self.r.choice(['both', 'lo', 'hi']) if True else 'both'
+            form = self.r.choice(['both', 'lo', 'hi'])
             lo = num() if form != 'hi' else []
             hi = num() if form != 'lo' else []
             return ['in'] + lo + ['..'] + hi
@@ -762,6 +762,15 @@ def standin_fmt_repo_files(tier, seed):
         cases.append(dict(source=m, label=p + (' (masked for KNOWN %s)' % ','.join(tags) if tags else '')))
     if masked:
         bound += '; %d of them with the spots of KNOWN defects masked' % masked
+    if tier == 'thorough':
+        # the small ones once more with random blanks / line breaks / comments at the separators
+        extra = 0
+        for c in list(cases):
+            if len(c['source']) <= 600:
+                sub = random.Random(rnd.getrandbits(48))
+                cases.append(dict(source=relayout(c['source'], sub, 0.2), label=c['label'] + ' re-laid-out'))
+                extra += 1
+        bound += '; + %d of them (<= 600 bytes) re-laid-out with random white space and comments after `,` `;` `{` `[`' % extra
     return check_family('fmt_repo_files', bound, cases, generated=False)
 
 
